@@ -36,13 +36,17 @@ impl Machine {
       let k = self.split.get(i).cloned().unwrap_or(0);
       let groups: Vec<(usize, usize)> = if k > 0 && k < brs.len() { vec![(0, k), (k, brs.len())] } else { vec![(0, brs.len())] };
       for (lo, hi) in groups {
-        let tgt_of = |j: usize, b: &Branch| if broken == "undeclared-target" && i == 0 && j == 0 { ":Phantom(n, a)".to_string() } else if b.target == DONE { format!(":Done(a + {}u64)", b.add) } else { format!(":{}(n - {}u64, a + {}u64)", NAMES[b.target], b.dn, b.add) };
+        // styles: "async" spells some transitions with the asynchronous operator (run synchronously it takes the same transitions);
+        // "steps" inserts an op-assignment statement step on a global accumulator whose right-hand side uses the state variables
+        let arrow = |j: usize| if broken.contains("async") && (i + j) % 2 == 0 { "~>" } else { "->" };
+        let step_of = |b: &Branch| if broken.contains("steps") && b.target != DONE { format!("total += n + {}u64 -> ", b.add) } else { String::new() };
+        let tgt_of = |j: usize, b: &Branch| if broken.contains("undeclared-target") && i == 0 && j == 0 { ":Phantom(n, a)".to_string() } else if b.target == DONE { format!(":Done(a + {}u64)", b.add) } else { format!(":{}(n - {}u64, a + {}u64)", NAMES[b.target], b.dn, b.add) };
         // a group that consists of the unguarded fallback alone is written as a direct transition
-        if hi - lo == 1 && brs[lo].guard.kind == "any" && lo > 0 { s.push_str(&format!("  :{}(n, a) -> {}\n", NAMES[i], tgt_of(lo, &brs[lo]))); continue; }
+        if hi - lo == 1 && brs[lo].guard.kind == "any" && lo > 0 { s.push_str(&format!("  :{}(n, a) {} {}{}\n", NAMES[i], arrow(lo), step_of(&brs[lo]), tgt_of(lo, &brs[lo]))); continue; }
         s.push_str(&format!("  :{}(n, a)\n", NAMES[i]));
         for j in lo..hi {
           let lead = if j + 1 == hi { "└" } else { "├" };
-          s.push_str(&format!("    {} {} -> {}\n", lead, brs[j].guard.text(), tgt_of(j, &brs[j])));
+          s.push_str(&format!("    {} {} {} {}{}\n", lead, brs[j].guard.text(), arrow(j), step_of(&brs[j]), tgt_of(j, &brs[j])));
         }
       }
     }
@@ -117,6 +121,9 @@ impl Prop for C17 {
       let mut rng = Rng::keyed(seed, &format!("c17m{}", i));
       let m = gen_machine(&mut rng, true);
       for n in 0..8u64 { out.push(Case { id: format!("run;m={};n={}", i, n), cell: format!("run;states={}", m.states.len()), input: json!({"mode": "run", "machine": m, "n": n}) }); }
+      // the same machines written with asynchronous arrows and / or statement steps (a decoy global named like the state variable)
+      for (si, style) in ["async", "steps"].iter().enumerate() { let n = (i as u64 + si as u64 * 3) % 8; out.push(Case { id: format!("styled;{};m={};n={}", style, i, n), cell: format!("styled;{}", style), input: json!({"mode": "styled", "machine": m, "n": n, "style": style}) }); }
+      if i % 4 == 0 { out.push(Case { id: format!("illformed;undeclared-target-async;m={}", i), cell: "illformed;undeclared-target-async".into(), input: json!({"mode": "illformed", "machine": m, "broken": "undeclared-target+async"}) }); }
       if i % 4 == 0 { for b in ["undeclared-target", "unimplemented-state", "wrong-kind-string", "wrong-kind-f64"] { out.push(Case { id: format!("illformed;{};m={}", b, i), cell: format!("illformed;{}", b), input: json!({"mode": "illformed", "machine": m, "broken": b}) }); } }
     }
     let nl = if tier == Tier::Quick { 40 } else { 400 };
@@ -208,6 +215,25 @@ impl Prop for C17 {
             other => Outcome::violated("panic-escaped", format!("{}\n{}", src, other.show())),
           },
         }
+      }
+      "styled" => {
+        let m: Machine = serde_json::from_value(case.input["machine"].clone()).unwrap();
+        let n = case.input["n"].as_u64().unwrap(); let style = case.input["style"].as_str().unwrap();
+        // globals named like the state variables hold other values: steps must see the state's bindings
+        let src = format!("~total := 0u64\nn := 77u64\na := 55u64\n{}\nr := #M({}u64)", m.source(style), n);
+        let mut s = Sess::new(); s.intrp.max_steps = 2000;
+        let res = s.eval(&src);
+        let Some((visited, want)) = m.simulate(n, 2000) else { return Outcome::trivial() };
+        let want_total: u64 = if style.contains("steps") { visited.iter().map(|(st, j, nn, _)| { let b = &m.states[*st][*j]; if b.target == DONE { 0 } else { nn + b.add } }).sum() } else { 0 };
+        match &res {
+          Ev::Ok(CVal::S(_, Sc::U(g))) if *g as u64 == want => {}
+          Ev::Panic(p) => return Outcome::violated("panic-escaped", p.clone()),
+          Ev::ParseErr(m) => return Outcome::inconclusive("harness-parse", format!("{}\n{}", src, m)),
+          other => return Outcome::violated("wrong-result", format!("{}\nreturned {} expected {}", src, other.show(), want)),
+        }
+        match s.get("total") { Some(CVal::S(_, Sc::U(t))) if t as u64 == want_total => {}, other => return Outcome::violated("step-effect-wrong", format!("{}\nthe accumulator holds {:?} expected {}", src, other.map(|v| v.show()), want_total)) }
+        if s.get("n") != Some(sc_u("u64", 77)) || s.get("a") != Some(sc_u("u64", 55)) { return Outcome::violated("global-changed", format!("{}\nn = {:?}, a = {:?}", src, s.get("n").map(|v| v.show()), s.get("a").map(|v| v.show()))); }
+        Outcome::held().num("transitions", visited.len() as f64)
       }
       "illformed" => {
         let m: Machine = serde_json::from_value(case.input["machine"].clone()).unwrap();
